@@ -8,8 +8,7 @@ from .. import drv_adwin as D
 from ..core import pmap
 from ..drv_change import shifty_stream
 
-WRAPS = {"scalar": lambda x: x, "list": lambda x: [x], "array": lambda x: np.array([x]),
-         "frame": lambda x: pd.DataFrame({"a": [x]})}
+from ..containers import wrap_of, draw_wrap
 
 
 def replayer(traces):
@@ -40,8 +39,8 @@ def run(ctx):
             script.insert(rng.randrange(len(script)), ("reset",))
         for _ in range(rng.randint(0, 2)):
             script.insert(rng.randrange(1, len(script)), ("bad", rng.choice([np.array([[1.0, 2.0]]), [[1.0], [2.0]]])))
-        w = rng.choice(sorted(WRAPS))
-        t = D.run(p, script, WRAPS[w])
+        w = draw_wrap(rng)             # scalars, lists, arrays, frames, series, views of a reused buffer - one kind or a mix per stream
+        t = D.run(p, script, wrap_of(w))
         t["wrap"] = w
         traces.append(t)
     ctx.validate("Adwin", traces, "ADWIN long shifting streams", sabotage=D.sabotage, replay=replayer(traces),
@@ -69,6 +68,6 @@ def run(ctx):
 def replay(ctx, bundle):
     r = bundle["replay"]
     script = [("bad", eval(s[1], {"array": np.array, "np": np})) if s[0] == "bad" else tuple(s) for s in r["script"]]
-    t = D.run(r["params"], script, WRAPS.get(r.get("wrap", "scalar")), accuracy=r["kind"] == "ADWINAccuracy")
+    t = D.run(r["params"], script, wrap_of(r.get("wrap", "scalar")), accuracy=r["kind"] == "ADWINAccuracy")
     ctx.validate("Adwin", [t], "replay", replay=lambda i: r)
     return ctx.finish()
